@@ -9,7 +9,7 @@ CONSTANTS Wide     \* TRUE: the full option grid (offset -1..2 x max 1..6) as ca
 
 H(lv, w, nav) == [t |-> "heading", level |-> lv, w |-> w, nav |-> nav]
 P(w) == [t |-> "para", w |-> w, nav |-> FALSE]
-HTable == [nr |-> 2, nc |-> 3, hm |-> "lead2", hdr |-> TRUE,
+HTable == [nr |-> 2, nc |-> 3, off |-> 0, hm |-> "lead2", hdr |-> TRUE,
            kind |-> <<<<"plain", "pipe", "plain">>, <<"empty", "nl", "padded">>>>, m |-> NoMerge]
 HList == <<[d |-> 0, k |-> "u", w |-> "i1"], [d |-> 1, k |-> "o", w |-> "i2"], [d |-> 0, k |-> "u", w |-> "i3"]>>
 
@@ -30,7 +30,7 @@ McCalls == Plain \cup (IF Wide THEN RagW ELSE RagQ)
 
 \* ---------------------------------------------------------------- emission
 ElOut(el) ==
-    CASE el.t = "table"   -> [t |-> "table", nr |-> el.tb.nr, nc |-> el.tb.nc, hdr |-> el.tb.hdr, hm |-> el.tb.hm,
+    CASE el.t = "table"   -> [t |-> "table", nr |-> el.tb.nr, nc |-> el.tb.nc, off |-> el.tb.off, hdr |-> el.tb.hdr, hm |-> el.tb.hm,
                               hrows |-> SetToSortSeq(HdrRowsOf(el.tb.hm, el.tb.nr), <), merged |-> HasMerge(el.tb),
                               src |-> Src(el.tb), special |-> Special(el.tb), nav |-> el.nav]
       [] el.t = "heading" -> [t |-> "heading", level |-> el.level, w |-> el.w, nav |-> el.nav]
